@@ -368,6 +368,50 @@ impl<'a> Tr<'a> {
                 }
             }
         }
+        // builtin: `it.last()` on a value whose type has a configured `Iterator::next`: a driver over fuel
+        if let Expr::MethodCall(m) = e {
+            if m.method == "last" && m.args.is_empty() {
+                if let Ok(recv) = self.pure(&m.receiver, env, None) {
+                    if let Ty::Adt(n) = &recv.ty {
+                        let nf: Vec<FnInfo> = self.find_fns(Some(n), "next").into_iter().filter(|f| f.self_kind == SelfKind::Mut && f.params.is_empty() && !f.has_mut_params()).collect();
+                        if nf.len() == 1 {
+                            let f = nf[0].clone();
+                            let item = match &f.ret {
+                                Ty::Option(t) => (**t).clone(),
+                                _ => return Err(unsupported(e, "`last()` on a type whose `next` does not return Option")),
+                            };
+                            if !self.fuel {
+                                self.needs_fuel = true;
+                                return Err(unsupported(e, "`last()` (retry with fuel)"));
+                            }
+                            self.loop_counter += 1;
+                            let id = format!("{}_last{}", self.fn_coq, self.loop_counter);
+                            let st = self.t.coq_ty(&recv.ty)?;
+                            let it = self.t.coq_ty(&item)?;
+                            let inner_fuel = match self.t.fuel_consts.get(&f.key) {
+                                Some(c) => c.clone(),
+                                None => "fuel_".to_string(),
+                            };
+                            let step = if f.fuel {
+                                format!("match {} {} it_ with\n| None => None\n| Some (it1_, None) => Some acc_\n| Some (it1_, Some v_) => {} fuel_ it1_ (Some v_)\nend", f.coq, inner_fuel, id)
+                            } else {
+                                format!("match {} it_ with\n| (it1_, None) => Some acc_\n| (it1_, Some v_) => {} fuel_ it1_ (Some v_)\nend", f.coq, id)
+                            };
+                            self.aux_defs.push(format!(
+                                "Fixpoint {id} (fuel0_ : nat) (it_ : {st}) (acc_ : option {it}) {{struct fuel0_}} : option (option {it}) :=\nmatch fuel0_ with\n| O => None\n| Datatypes.S fuel_ =>\n{step}\nend.",
+                                id = id,
+                                st = st,
+                                it = it,
+                                step = step
+                            ));
+                            let r = self.fresh("lst");
+                            let rest = k(self, Val { s: r.clone(), ty: Ty::Option(Box::new(item)) })?;
+                            return Ok(Some(format!("match {} {} {} None with\n| Some {} =>\n{}\n| None => None\nend", id, self.fuel_var, recv.s, r, rest)));
+                        }
+                    }
+                }
+            }
+        }
         let (f, recv) = match self.resolve_effectful(e, env)? {
             Some(x) => x,
             None => return Ok(None),
@@ -389,7 +433,10 @@ impl<'a> Tr<'a> {
         };
         let mut a: Vec<String> = vec![];
         if f.fuel {
-            a.push(self.fuel_var.clone());
+            a.push(match self.t.fuel_consts.get(&f.key) {
+                Some(c) => c.clone(),
+                None => self.fuel_var.clone(),
+            });
         }
         a.extend(self.mvar_args(&f.mvars, env, e)?);
         let mut writebacks: Vec<(String, Vec<Member>)> = vec![];
